@@ -647,6 +647,11 @@ class StaticResource(PrefixResource):
             else:
                 file_path = unresolved_path.resolve()
                 file_path.relative_to(self._directory)
+                if file_path.resolve() != file_path:
+                    # resolve() gave up at a circular symlink and left the
+                    # rest of the path unresolved: a link further down may
+                    # still point outside the root.
+                    raise ValueError("path is not fully resolved")
         except (ValueError, *CIRCULAR_SYMLINK_ERROR) as error:
             # ValueError is raised for the relative check. Circular symlinks
             # raise here on resolving for python < 3.13.
